@@ -199,6 +199,19 @@ def values_equal(it, a, b):
     if is_byteslike(a) and is_byteslike(b):
         if _both_concrete(a, b):
             return a == b
+        # comparison with b'' decided structurally when a part has a known positive length
+        for x, y in ((a, b), (b, a)):
+            if isinstance(y, bytes) and len(y) == 0 and it.p is not None:
+                from . import bytesops
+                parts = bytesops._flatten(bytes_term(x), it.p.defs)
+                if not parts:
+                    return True
+                if any((bytesops.static_len(it, q) or 0) > 0 for q in parts):
+                    return False
+                # x == b''  <=>  |x| == 0   (arithmetic: decidable without the sequence solver)
+                lx = z3.Length(bytes_term(x))
+                it.p.facts.add(lx >= 0)
+                return lx == 0
         return bytes_term(a) == bytes_term(b)
     if is_strlike(a) and is_strlike(b):
         if _both_concrete(a, b):
